@@ -1261,6 +1261,18 @@ class ConnectionBase(object):
 
     def _recv_datagram(self, hdr, datagram):
 
+        # once a session key is set every datagram must be encrypted with
+        # that key. before that the only datagram that is accepted is
+        # the single unencrypted hello from the remote side
+        hello = PacketType.CLIENT_HELLO if self.isServer else PacketType.SERVER_HELLO
+        if self.session_key_bytes:
+            if hdr.pkt_type in (PacketType.CLIENT_HELLO, PacketType.SERVER_HELLO):
+                self.stats.dropped += 1
+                return False
+        elif hdr.pkt_type != hello or hdr.count != 1:
+            self.stats.dropped += 1
+            return False
+
         # first, decrypt or check the CRC
         # ensure that this packet validates correctly
 
